@@ -130,6 +130,7 @@ class Task(NamedUIDObject):
             resource = resource.get_select_workers()
 
         if isinstance(resource, SelectWorkers):
+            resource._required_by = self
             # a worker already required by this task cannot also be an alternative: its
             # busy interval for this task would be overwritten
             for worker in resource.list_of_workers:
